@@ -56,7 +56,9 @@ impl FileTracker {
         {
             return file.clone();
         }
-        let new_number = *curr.file_number + 1u64;
+        // A stray file can carry the number u64::MAX: creating its successor then fails (the
+        // file already exists) instead of overflowing.
+        let new_number = curr.file_number.saturating_add(1u64);
         let new_file_number = FileNumber::new(new_number);
         self.files.insert(new_file_number.clone());
         new_file_number
